@@ -63,8 +63,14 @@ def parse_enum(p, e):
     e.name = p.expect("id"); p.expect("p", "{")
     while not p.accept("p", "}"):
         if p.accept("p", ";"): continue
-        n = p.expect("id"); p.expect("p", "="); num = p.expect("int"); p.expect("p", ";")
+        n = p.expect("id")
+        if n == "option": skip_option_stmt(p); continue
+        if n == "reserved":
+            while not p.accept("p", ";"): p.next()
+            continue
+        p.expect("p", "="); num = p.expect("int")
         v = e.value.add(); v.name = n; v.number = num
+        skip_field_options(p, v); p.expect("p", ";")
 
 def parse_reserved(p, m):
     while True:
@@ -82,11 +88,15 @@ def parse_field(p, m, first, unresolved, oneof_index=None):
     fld = m.field.add()
     label = dp.FieldDescriptorProto.LABEL_OPTIONAL
     tname = first
+    proto3_optional = False
     if first == "repeated":
         label = dp.FieldDescriptorProto.LABEL_REPEATED; tname = p.expect("id")
+    elif first == "optional":
+        proto3_optional = True; tname = p.expect("id")
     if tname == "map":
         p.expect("p", "<"); kt = p.expect("id"); p.expect("p", ","); vt = p.expect("id"); p.expect("p", ">")
-        fname = p.expect("id"); p.expect("p", "="); num = p.expect("int"); p.expect("p", ";")
+        fname = p.expect("id"); p.expect("p", "="); num = p.expect("int")
+        skip_field_options(p, fld); p.expect("p", ";")
         entry = m.nested_type.add(); entry.name = camel(fname) + "Entry"; entry.options.map_entry = True
         kf = entry.field.add(); kf.name = "key"; kf.number = 1; kf.label = 1; kf.type = SCALARS[kt]
         vf = entry.field.add(); vf.name = "value"; vf.number = 2; vf.label = 1
@@ -96,10 +106,33 @@ def parse_field(p, m, first, unresolved, oneof_index=None):
         fld.type_name = "@NESTED@" + entry.name
         unresolved.append((fld, m))
         return
-    fname = p.expect("id"); p.expect("p", "="); num = p.expect("int"); p.expect("p", ";")
+    fname = p.expect("id"); p.expect("p", "="); num = p.expect("int")
+    skip_field_options(p, fld); p.expect("p", ";")
     fld.name = fname; fld.number = num; fld.label = label
     set_type(fld, tname, unresolved)
     if oneof_index is not None: fld.oneof_index = oneof_index
+    if proto3_optional:
+        o = m.oneof_decl.add(); o.name = "_" + fname
+        fld.oneof_index = len(m.oneof_decl) - 1; fld.proto3_optional = True
+
+def skip_field_options(p, fld):
+    """[deprecated = true, json_name = "x"]: deprecated is kept, the rest is
+    accepted and ignored (it does not change the wire format)."""
+    if not p.accept("p", "["):
+        return
+    while True:
+        n = p.expect("id"); p.expect("p", "="); v = p.next()[1]
+        if n == "deprecated" and v == "true": fld.options.deprecated = True
+        elif n == "json_name": fld.json_name = v
+        elif n not in ("packed",): raise SyntaxError("field option " + n)
+        if p.accept("p", "]"): return
+        p.expect("p", ",")
+
+
+def skip_option_stmt(p):
+    """option <name> = <value>;  inside a message or enum body."""
+    p.expect("id"); p.expect("p", "="); p.next(); p.expect("p", ";")
+
 
 def set_type(fld, tname, unresolved):
     if tname in SCALARS: fld.type = SCALARS[tname]
@@ -112,6 +145,7 @@ def parse_message(p, m, unresolved):
         if p.accept("p", ";"): continue
         k, v = p.next()
         if v == "reserved": parse_reserved(p, m)
+        elif v == "option": skip_option_stmt(p)
         elif v == "oneof":
             o = m.oneof_decl.add(); o.name = p.expect("id"); idx = len(m.oneof_decl) - 1
             p.expect("p", "{")
